@@ -256,7 +256,11 @@ func (a *An) pairLayouts(rule string) {
 
 func (a *An) primitives(rule string) {
 	R := a.R
-	for _, p := range []struct{ name string; w int; put, get string }{
+	for _, p := range []struct {
+		name     string
+		w        int
+		put, get string
+	}{
 		{"Short", 2, "PutUint16", "Uint16"}, {"Word", 4, "PutUint32", "Uint32"}, {"Long", 8, "PutUint64", "Uint64"},
 	} {
 		if f := a.MustFn("Serialize" + p.name); f != nil {
